@@ -77,9 +77,20 @@ static void estimate()
   for (int i = 0; i < D; ++i) {
     for (int j = 0; j < D; ++j) {
       M[i][j] = 0;
-      for (int k = 0; k < N; ++k) {M[i][j] += (s[k][i] - sm[i]) * (t[(k + shift) % N][j] - tm[j]);}
+      // (mode 2: the code sees both sets scaled; the oracle is written on the scaled coordinates so that it is the same
+      // polynomial as the matrix the code builds - R M symmetric / PSD is invariant under the positive factor scale^2)
+      for (int k = 0; k < N; ++k) {
+        if (mode == 2) {
+          M[i][j] += (s[k][i] * scale - sm[i] * scale) * (t[(k + shift) % N][j] * scale - tm[j] * scale);
+        } else {
+          M[i][j] += (s[k][i] - sm[i]) * (t[(k + shift) % N][j] - tm[j]);
+        }
+      }
     }
   }
+  // cut point: the oracle cross-covariance becomes fresh variables, shared with the matrix the code hands to the SVD when both
+  // are the same polynomial
+  for (int i = 0; i < D; ++i) {vf_cut(&M[i][0], D, "M");}
   FindRigidTransformationBySVD<P> est;
   typename FindRigidTransformationBySVD<P>::TransformationMatrixType H;
   if (mode == 0) {
@@ -133,6 +144,14 @@ static void estimate()
       M[0][2] * (M[1][0] * M[2][1] - M[1][1] * M[2][0]);
   }
   vf_check((detM < 0) | (quad >= -1e-9 * (1 + q[0] * q[0] + q[1] * q[1] + q[2] * q[2])), "R-times-cross-covariance-is-positive-semidefinite");
+  // whatever the sign of det M, the optimal proper rotation maximises trace(R M): the value is s1 + .. +- s_min >= 0
+  // (a wrongly chosen reflection correction gives a symmetric R M with negative trace)
+  double trRM = 0, absM = 0;
+  for (int i = 0; i < D; ++i) {
+    trRM += RM[i][i];
+    for (int j = 0; j < D; ++j) {absM += M[i][j] * M[i][j];}
+  }
+  vf_check(trRM >= -1e-9 * (1 + absM), "trace-of-R-times-cross-covariance-is-nonnegative");
   // proper rotation
   double det;
   if (D == 2) {
